@@ -286,6 +286,21 @@ for _p, _t in _EXTRA7.items():
         t, n, te, r = CLAIMS[_p]
         CLAIMS[_p] = (t + _t, n, te, r)
 
+_EXTRA8 = {
+ "C01": " Eighth round: (R-TXN-13) a restore point is total: header and records are saved together and put back together, no condition decides about one half; (R-TXN-14) only Commit / Rollback remove the mark of an uncommitted change; R-CLEAN-2 / R-CLEAN-6 registered (a failed COMMIT leaves no created table behind).",
+ "C05": " Eighth round: (R-TXN-13); R-ISO-1 / R-ISO-2 registered (UPDATE / DELETE never shift the records of the cached table in place).",
+ "C08": " Eighth round: R-ERR-14 / R-TXN-4 registered (a result published before its check stays behind when the check fails).",
+ "C10": " Eighth round: R-LOCK-1 / R-LOCK-4 registered (the temp file COMMIT encodes into is created exclusively and only under the lock of its table).",
+ "C14": " Eighth round: (R-CUR-11) a fetched row is storage of its own; R-SRT-5 registered (a per-cell cache carried over a re-projection makes a later clause read another cell's value).",
+ "C15": " Eighth round: (R-TXN-14) closing a block never erases the uncommitted mark of the outer view it shadowed.",
+ "C16": " Eighth round: (R-CUR-11) every field of Cursor that a method other than Open writes is stored by Open before each successful return, and every slice a method of Cursor returns is nil or allocated by that call.",
+ "C18": " Eighth round: R-DET-2 / R-MEMO-1 registered (the parser keeps no lazily built package-level table).",
+ "C19": " Eighth round: (R-REF-1) every RecordSet[…recordIndex] is dominated by IsInRange on the same reference record, through parameters to the callers — two genuine defects repaired (LISTAGG / JSON_AGG and JSON_OBJECT evaluated without a current record indexed with -1).",
+}
+for _p, _t in _EXTRA8.items():
+    if _p in CLAIMS:
+        t, n, te, r = CLAIMS[_p]
+        CLAIMS[_p] = (t + _t, n, te, r)
 # Substrate rules (rules/zz_substrate.go): run with every property whose observable behaviour they protect.
 _SUBSTRATE = " Substrate (run with every value-level property, DESIGN §2.11): R-POOL-1/2/3/5 (no value object is returned to its pool while something still refers to it, none twice), R-PAR-1 (no unsynchronised conflicting access between worker goroutines), R-ALIAS-1 (no shared spare capacity), R-ISO-4 / R-AST-1 (no in-place write to cells or syntax trees that another holder shares)."
 for _p in ["C01","C02","C03","C04","C05","C06","C07","C08","C12","C13","C14","C15","C16","C17","C19","C20"]:
